@@ -171,6 +171,11 @@ func (ProgressOracle) AfterCycle(r *Run, cycle int, all []Decision) {
 			continue
 		}
 		gp, c, m := podQueueDemand(pre, p, activeNode[name])
+		if p.Demand.Shared && p.Demand.GPUMemMi > 0 {
+			// the scheduler accounts a gpu-memory request as a fraction of the device rounded up to 1/100 GPU per device: the
+			// witness must fit under that (larger) number as well
+			gp += 0.011 * float64(max(p.Demand.Devices, 1))
+		}
 		for _, q := range chainOf(g.Queue) {
 			v := vec3{gp, c, m}
 			for k := range v {
